@@ -223,4 +223,20 @@ theorem obs_rel (h : Heap) {v1 v2 : Val} (hr : VRel v1 v2) : obs h v1 = obs h v2
   | nil => rfl
   | cons hi _ ih => simp only [obs, List.map_cons] at ih ⊢; rw [obsItem_rel h hi, ih]
 
+/-- without inline function expressions every program is outside the F05c trigger -/
+theorem ws_of_noFn : ∀ (e : Expr) (S : List Name), noFn e = true → WS true S e = true := by
+  intro e
+  induction e with
+  | fn ps b _ => intro S h; simp [noFn] at h
+  | int _ | var _ | empty | dt _ _ => intro S _; simp [WS]
+  | paren e ih | tzOf e ih | call0 e ih => intro S h; simp only [noFn] at h; simpa [WS] using ih S h
+  | seq a b iha ihb | add a b iha ihb | sub a b iha ihb | eq a b iha ihb | call a b iha ihb =>
+    intro S h
+    simp only [noFn, Bool.and_eq_true] at h
+    simp only [WS, Bool.and_eq_true]; exact ⟨iha S h.1, ihb S h.2⟩
+  | letE x a b iha ihb | forE x a b iha ihb | someE x a b iha ihb | everyE x a b iha ihb =>
+    intro S h
+    simp only [noFn, Bool.and_eq_true] at h
+    simp only [WS, Bool.and_eq_true]; exact ⟨iha S h.1, ihb (x :: S) h.2⟩
+
 end EPV.Scope
